@@ -33,9 +33,19 @@ fn find_line_ending(buf: &[u8]) -> Option<usize> {
     None
 }
 
+/// Longest line accepted from the server during authentication (same limit as the reference implementation)
+const MAX_AUTH_LINE_LEN: usize = 16 * 1024;
+
 fn read_message(stream: &mut UnixStream, buf: &mut Vec<u8>) -> std::io::Result<String> {
     let mut tmpbuf = [0u8; 512];
     while !has_line_ending(buf) {
+        if buf.len() > MAX_AUTH_LINE_LEN {
+            // a server that never ends its line must not keep us reading (and buffering) forever
+            return Err(std::io::Error::new(
+                std::io::ErrorKind::InvalidData,
+                "line sent by the server during authentication is too long",
+            ));
+        }
         let bytes = stream.read(&mut tmpbuf[..])?;
         if bytes == 0 {
             // the other side closed the connection before sending a complete line
